@@ -711,6 +711,10 @@ def world_rule3(pid):
                     6095: "with a liquidation record that is not the account's", 6096: "signed by someone else than the receiver the record names"},
             "C08": {6096: "signed by someone else than the receiver the record names", 6095: "with a liquidation record that is not the account's",
                     6099: "with a wallet that is not the fee state's"}}),
+        "wd.closeacct": ("account closure", {
+            "C16": {6043: "of an account that is not empty, or is disabled / in a flash loan / in receivership", 6103: "of a frozen account"},
+            "C08": {6042: "for a signer who is not the account's authority", 6103: "of a frozen account"},
+            "C11": {6043: "of an account inside a flash loan"}, "C10": {6043: "of an account in receivership"}}),
         "wd.startdelev": ("forced-deleverage start", {
             "C10": {6085: "of an account already in receivership / in a flash loan / disabled", 6086: "that is not the first instruction",
                     6087: "next to another start", 6088: "without an end_deleverage as the last instruction",
@@ -729,6 +733,10 @@ def world_rule3(pid):
         if kind not in T:
             return None
         name, table = T[kind]
+        if impl.startswith("ok closed-although-not-empty") and pid == "C16":
+            return f"C16 an account that still holds a deposit or a debt of one share or more was CLOSED: {op[:400]}"
+        if impl.startswith("ok closed-for-someone-else-than-the-authority") and pid in ("C08", "C16"):
+            return f"{pid} an account was closed for a signer who is not its authority: {op[:400]}"
         if impl.startswith("ok accepted-for-someone-else-than-the-risk-admin") and pid in ("C10", "C08", "C12"):
             return f"{pid} a {name} went through for someone else than the group's risk admin (signer / receiver named by the record): {op[:400]}"
         if impl.startswith("ok accepted-with-foreign-group") and pid in ("C06", "C08", "C19"):
